@@ -130,21 +130,32 @@ def evaluate(ctx, cases):
                     exp = core.canon(base["ok"][0]) if base["ok"] else "none"
                     if got != exp:
                         ctx.violation("match must be the first element of finditer, or nothing when it is empty", {**inp, "form": fname}, got, exp)
-            # compound specification from the operands' own results
+            # compound specification from the operands' own results: every operand is compiled on its own,
+            # from its own text (cut at the union / intersection tokens), and the results are combined
             if hasattr(compiled, "paths") and compiled.paths:
                 try:
-                    acc = list(compiled.path.findall(doc)) if not hasattr(compiled.path, "paths") else None
-                except Exception:  # noqa: BLE001
-                    acc = None
-                if acc is not None:
-                    for op, p in compiled.paths:
+                    toks = list(jsonpath.DEFAULT_ENV.lexer.tokenize(text))
+                    cuts = [(t.index, t.kind) for t in toks if t.kind in ("UNION", "INTERSECT")]
+                    pieces, ops, start = [], [], 0
+                    for idx, kind in cuts:
+                        pieces.append(text[start:idx])
+                        ops.append(kind)
+                        start = idx + 1
+                    pieces.append(text[start:])
+                    operands = [jsonpath.compile(x.strip()) for x in pieces]
+                    acc = list(operands[0].findall(doc))
+                    for kind, p in zip(ops, operands[1:]):
                         right = p.findall(doc)
-                        if op == compiled.env.union_token:
+                        if kind == "UNION":
                             acc = acc + right
                         else:
                             acc = [x for x in acc if any(x == y for y in right)]
-                    if _vals(acc) != want:
-                        ctx.violation("a compound query is union = left then right, intersection = left restricted to values produced by right, left to right", inp, want[:8], _vals(acc)[:8])
+                except Exception:  # noqa: BLE001
+                    acc = None
+                    ctx.count("compound-operands-not-separable")
+                if acc is not None and _vals(acc) != want:
+                    ctx.violation("a compound query is union = left then right, intersection = left restricted to values produced by right, left to right, each operand meaning what it means on its own",
+                                  inp, want[:8], _vals(acc)[:8])
     finally:
         loop.close()
 
